@@ -315,9 +315,20 @@ static int pre_open(const char *path, const char *what, int *pi_out) {
   return 0;
 }
 
+/* The output phase of the process begins with the first attempt to open a file under the scratch root for writing.
+ * The allocator shim, if it is loaded too, can be told to inject its faults only from then on (simheap_arm). */
+static void output_phase_begins(void) {
+  static int done;
+  if (done) return;
+  done = 1;
+  void (*arm)(void) = (void (*)(void))dlsym(RTLD_DEFAULT, "simheap_arm");
+  if (arm) arm();
+}
+
 static FILE *do_fopen(FILE *(*fn)(const char *, const char *), const char *path, const char *mode) {
   int pi;
   if (pre_open(path, "open", &pi) < 0) return NULL;
+  if (pi >= 0 && mode && (strchr(mode, 'w') || strchr(mode, 'a') || strchr(mode, '+'))) output_phase_begins();
   FILE *f = fn(path, mode);
   if (pi >= 0) {
     int e = errno;
@@ -336,6 +347,7 @@ static int do_open(int which, int dirfd, const char *path, int flags, mode_t mod
   if (which != 2 || dirfd == AT_FDCWD || (path && path[0] == '/')) {
     if (pre_open(path, "open", &pi) < 0) return -1;
   }
+  if (pi >= 0 && (flags & (O_WRONLY | O_RDWR))) output_phase_begins();
   int fd;
   if (which == 0) fd = real_open(path, flags, mode);
   else if (which == 1) fd = (real_open64 ? real_open64 : real_open)(path, flags, mode);
